@@ -385,6 +385,7 @@ func runC01(c *Ctx) {
 	}
 
 	c01TargetTable(c)
+	c01Extra(c)
 }
 
 func identObjName(info *types.Info, e ast.Expr) string {
